@@ -370,7 +370,8 @@ theorem cmd_class (nS nM : Nat) {ty : Nat} (arg : Nat) (h : ty = mds_SLR ∨ isC
           (∀ (seq : List Nat) (pc : Nat), seq[pc]? = some op → instrLen seq pc = some (1 + ops.length)) := by
       intro op hop a henc
       have hge := oneArgOps_ge hop
-      exact ⟨[a], fun e => encEv_other (by simp [mds_SLR]; omega) (henc e), by omega, plain_cmd1 hop,
+      exact ⟨[a], fun e => encEv_other (by simp [mds_SLR]; omega) (henc e)
+        (by rintro ⟨h, _⟩; subst h; exact absurd hop (by decide)), by omega, plain_cmd1 hop,
         fun seq pc hb => instrLen_cmd1 hb hop⟩
     rcases hcmd with ((((⟨hb, hdm⟩ | hw) | rfl) | rfl) | rfl) | rfl
     · have all : ∀ x ∈ byteArgOps, x ≠ mds_DMFINISH → oneArgOps.contains x = true := by decide
@@ -378,7 +379,8 @@ theorem cmd_class (nS nM : Nat) {ty : Nat} (arg : Nat) (h : ty = mds_SLR ∨ isC
     · have all : ∀ x ∈ wordArgOps, twoArgOps.contains x = true ∧ x ≥ mds_SLR := by decide
       obtain ⟨h2, hge⟩ := all ty (by simpa using hw)
       have hge' := twoArgOps_ge h2
-      exact ⟨[arg / 256 % 256, arg % 256], fun e => encEv_other hge (encOther_word nS nM e arg hw), by omega,
+      exact ⟨[arg / 256 % 256, arg % 256], fun e => encEv_other hge (encOther_word nS nM e arg hw)
+        (by rintro ⟨h, _⟩; subst h; exact absurd hw (by decide)), by omega,
         plain_cmd2 h2, fun seq pc hb => instrLen_cmd2 hb h2⟩
     · exact one (by decide) _ (fun e => encOther_ins nS nM e arg (.inl rfl))
     · exact one (by decide) _ (fun e => encOther_ins nS nM e arg (.inr rfl))
